@@ -178,6 +178,8 @@ pub struct Case {
     /// run the same commands over a TLS upgrade (real rustls client inside the transport); the
     /// observation's output is the plaintext greeting followed by what the client decrypted
     pub over_tls: bool,
+    /// never run predecessor connections before this case (it is one itself)
+    pub no_predecessors: bool,
     pub conv: bool,
     pub log_reads: bool,
     /// 0 = derive from input size
@@ -207,6 +209,7 @@ impl Case {
             minimal_shim: false,
             via_run_on_stream: false,
             over_tls: false,
+            no_predecessors: false,
             conv: false,
             log_reads: true,
             budget_ops: 0,
@@ -301,7 +304,137 @@ fn run_case_tls(case: &Case) -> Option<Obs> {
     Some(Obs { outcome: o.outcome, world, log: o.log, ends, kinds: case.kinds(), tls_upgrade_requested: false })
 }
 
+thread_local! {
+    /// set while a predecessor connection runs (no predecessors for predecessors)
+    static IN_PRELUDE: std::cell::Cell<bool> = const { std::cell::Cell::new(false) };
+    pub static PRELUDES_RUN: std::cell::Cell<u64> = const { std::cell::Cell::new(0) };
+}
+
+/// A server thread serves one connection after another. What an earlier connection on the same
+/// thread did - above all one that ended badly - must not matter to the next one. Before a share of
+/// the cases (chosen by the case's own input, so that a replay reproduces it) one to three
+/// *predecessor connections* run on this thread and end in the ways that leave the most behind:
+/// a transport write failing in the middle of a reply, the backend returning its own error inside
+/// a row, long data abandoned by CLOSE, an execute of an unknown id after a PREPARE, a TLS-offering
+/// shim, request ids that leave the counters at odd values. Their own outcomes are not judged.
+fn run_predecessors(case: &Case) {
+    if cfg!(miri) || case.no_predecessors || IN_PRELUDE.with(|f| f.get()) {
+        return;
+    }
+    let (input, _) = case.input();
+    let h = hash128(&input).0 ^ 0x9E37_79B9_7F4A_7C15;
+    if h % 6 != 0 {
+        return;
+    }
+    IN_PRELUDE.with(|f| f.set(true));
+    let mut r = Rng::for_case(h, "predecessor", 0);
+    let col = |n: &str, t: msql_srv::ColumnType| msql_srv::Column { table: "t".into(), column: n.into(), coltype: t, colflags: msql_srv::ColumnFlags::empty() };
+    use crate::shim::{Cell as SC, OnErr, QOp, QProg, RowForm, V};
+    for _ in 0..r.range(1, 3) {
+        let variant = r.below(8);
+        let mut c = match variant {
+            0 => {
+                // a reply cut by a transport write error somewhere inside it
+                let cols = vec![col("a", msql_srv::ColumnType::MYSQL_TYPE_VAR_STRING), col("b", msql_srv::ColumnType::MYSQL_TYPE_LONG)];
+                let mut ops = vec![QOp::Start(0)];
+                for k in 0..r.range(1, 30) {
+                    ops.push(QOp::Row(vec![SC::val(V::Bytes(format!("leftover-of-an-earlier-client-{}", k).into_bytes())), SC::val(V::I32(1234567))], RowForm::Owned));
+                }
+                ops.push(QOp::Finish);
+                let mut c = Case::new(vec![Cmd::query(b"q").seq(r.below(256) as u8)], vec![Script::Q(QProg { colsets: vec![cols], ops, on_err: OnErr::Drop })]);
+                c.fault.err_at = Some(3 + r.below(40));
+                c.fault.persistent = r.bool();
+                c.fault.err_kind = r.below(3) as u8;
+                c
+            }
+            1 => {
+                // the backend returns its own error inside a row (text or binary), NULL written before
+                let bin = r.bool();
+                let t = if bin { msql_srv::ColumnType::MYSQL_TYPE_LONG } else { msql_srv::ColumnType::MYSQL_TYPE_VAR_STRING };
+                let n = r.range(2, 9) as usize;
+                let cols: Vec<_> = (0..n).map(|k| col(&format!("c{}", k), t)).collect();
+                let mut ops = vec![QOp::Start(0), QOp::Col(SC::val(V::Null))];
+                for k in 1..r.range(1, n as u64 - 1) {
+                    ops.push(QOp::Col(SC::val(V::I32(0x7F7F_7F00 + k as i32))));
+                }
+                ops.push(QOp::Bail(4711));
+                let prog = QProg { colsets: vec![cols.clone()], ops, on_err: OnErr::Drop };
+                if bin {
+                    Case::new(vec![Cmd::prepare(b"p"), Cmd::execute(1, &[], false)], vec![Script::PrepOk { id: 1, params: vec![], cols }, Script::Q(prog)])
+                } else {
+                    Case::new(vec![Cmd::query(b"q")], vec![Script::Q(prog)])
+                }
+            }
+            2 => {
+                // long data sent, statement closed without executing; connection ends cleanly or not
+                let pc = col("p", msql_srv::ColumnType::MYSQL_TYPE_BLOB);
+                let id = *r.pick(&[1u32, 7, 21, 22, 11, 0x0A0B_0C0D]);
+                let mut cmds = vec![Cmd::prepare(b"p"), Cmd::long_data(id, 0, b"ABANDONED-BY-AN-EARLIER-CLIENT/"), Cmd::long_data(id, 1, b"second/")];
+                if r.bool() {
+                    cmds.push(Cmd::close(id));
+                }
+                if r.bool() {
+                    cmds.push(Cmd::quit());
+                }
+                Case::new(cmds, vec![Script::PrepOk { id, params: vec![pc.clone(), pc], cols: vec![] }])
+            }
+            3 => {
+                // statements left open (with bound types), then an execute of an unknown id ends the connection
+                let pc = col("p", msql_srv::ColumnType::MYSQL_TYPE_LONGLONG);
+                let mut cmds = Vec::new();
+                let mut scripts = Vec::new();
+                for id in [1u32, 7, 11, 12, 13, 21, 22, 23, 0x0A0B_0C0D] {
+                    cmds.push(Cmd::prepare(b"p"));
+                    scripts.push(Script::PrepOk { id, params: vec![pc.clone()], cols: vec![] });
+                    cmds.push(Cmd::execute(id, &[wire::Param { typ: wire::T_LONGLONG, unsigned: true, value: Some(wire::PVal::Int(7)), long: false }], true));
+                    scripts.push(Script::Q(QProg::completed(0, 0)));
+                }
+                cmds.push(Cmd::execute(0x7777_7777, &[], false));
+                Case::new(cmds, scripts)
+            }
+            4 => {
+                // the other kind of shim as far as TLS is concerned (the client stays in plaintext)
+                let mut c = Case::new(vec![Cmd::ping()], vec![]);
+                if case.tls.is_none() {
+                    c.tls = TLS_MATERIAL.get_or_init(|| crate::tls::TlsMaterial::generate().ok()).as_ref().map(|m| m.server_optional.clone());
+                }
+                c
+            }
+            5 => {
+                // the stream ends in the middle of a command; odd request ids before
+                let mut c = Case::new(vec![Cmd::ping().seq(200), Cmd::query(b"select 1 from somewhere").seq(77)], vec![Script::Q(QProg::completed(1, 1))]);
+                let (inp, _) = c.input();
+                c.fault.eof_after = Some(inp.len() - 1 - r.below(10) as usize);
+                c
+            }
+            6 => {
+                // a wide binary resultset with NULLs, left to the destructor
+                let n = r.range(7, 40) as usize;
+                let cols: Vec<_> = (0..n).map(|k| col(&format!("c{}", k), msql_srv::ColumnType::MYSQL_TYPE_LONG)).collect();
+                let ops = vec![QOp::Start(0), QOp::Row((0..n).map(|k| if k % 2 == 0 { SC::val(V::Null) } else { SC::val(V::I32(-1)) }).collect(), RowForm::Owned), QOp::DropRow];
+                Case::new(vec![Cmd::prepare(b"p"), Cmd::execute(1, &[], false)], vec![Script::PrepOk { id: 1, params: vec![], cols: cols.clone() }, Script::Q(QProg { colsets: vec![cols], ops, on_err: OnErr::Drop })])
+            }
+            _ => {
+                // a rejected login
+                let mut c = Case::new(vec![Cmd::ping()], vec![]);
+                c.auth_reject = Some(99);
+                c
+            }
+        };
+        c.no_predecessors = true;
+        c.log_reads = false;
+        if r.bool() {
+            c.write_limit = *r.pick(&[1usize, 7, 100, 4096]);
+        }
+        let _ = run_case(&c);
+        PRELUDES_RUN.with(|n| n.set(n.get() + 1));
+    }
+    let _ = take_panic();
+    IN_PRELUDE.with(|f| f.set(false));
+}
+
 pub fn run_case(case: &Case) -> Obs {
+    run_predecessors(case);
     if case.over_tls {
         if let Some(o) = run_case_tls(case) {
             return o;
